@@ -24,21 +24,23 @@ class Unit:
         raise NotImplementedError
 
 
-def run_unit(unit, tier="quick"):
-    """Explore all paths of a unit, discharge its obligations.  Returns a picklable summary."""
+def run_unit(unit, tier="quick", prefix=(), split=0):
+    """Explore all paths of a unit (under `prefix`), discharge its obligations.  Returns a picklable summary.
+
+    split > 0: explore breadth-first only until `split` prefixes are pending and return them in out["pending"]."""
     t0 = time.time()
     out = {"unit": unit.name, "props": list(unit.props), "fmodel": unit.fmodel, "bounded": unit.bounded,
            "functions": [f"{m}:{q}" for m, q in unit.functions], "obligations": [], "paths": 0, "pruned": 0,
            "error": None, "error_kind": None, "solver_s": 0.0, "vacuous_paths": 0, "canary": None,
-           "assumptions": list(unit.assumptions), "replay": unit.replay}
+           "assumptions": list(unit.assumptions), "replay": unit.replay, "pending": []}
     timeout = unit.timeout_ms * (6 if tier == "thorough" else 1)
 
     def run(c):
         base_axioms(c)
         return unit.run(c)
     try:
-        first = True
-        for res in explore(run, unit.fmodel, max_paths=unit.max_paths):
+        first = not prefix
+        for res in explore(run, unit.fmodel, prefix=prefix, max_paths=unit.max_paths, split=split, pending_out=out["pending"]):
             out["paths"] += 1
             out["pruned"] += res.pruned
             c = res.ctx
